@@ -418,38 +418,50 @@ func runGob(m *model.Model, s *ob.Set) {
 
 	// ---------------- G4: restore precision and mode when the receiver had a precision
 	{
-		var oldPrec, oldMode *ssa.UnOp
-		firstDecoded := decoded[0].st
-		for _, b := range fn.Blocks {
-			if !live[b.Index] {
-				continue
+		// the decoded stores to the two attributes
+		var precStores, modeStores []*ssa.Store
+		for _, d := range decoded {
+			switch d.field {
+			case m.F.Prec:
+				precStores = append(precStores, d.st)
+			case m.F.Mode:
+				modeStores = append(modeStores, d.st)
 			}
-			for _, in := range b.Instrs {
-				if u, ok := in.(*ssa.UnOp); ok && u.Op == token.MUL {
-					if fa, ok := m.DecField(u.X); ok && m.RefOf(fa.X).OnlyParam(0) {
-						dominatesAll := true
-						for _, d := range decoded {
-							if !m.InstrDominates(u, d.st) {
-								dominatesAll = false
-							}
+		}
+		// the receiver's own values: a load that is in front of every store to the same field
+		saved := func(field int, stores []*ssa.Store) *ssa.UnOp {
+			for _, b := range fn.Blocks {
+				if !live[b.Index] {
+					continue
+				}
+				for _, in := range b.Instrs {
+					u, ok := in.(*ssa.UnOp)
+					if !ok || u.Op != token.MUL {
+						continue
+					}
+					fa, ok := m.DecField(u.X)
+					if !ok || fa.Field != field || !m.RefOf(fa.X).OnlyParam(0) {
+						continue
+					}
+					all := true
+					for _, st := range stores {
+						if !m.InstrDominates(u, st) {
+							all = false
 						}
-						if dominatesAll {
-							if fa.Field == m.F.Prec && oldPrec == nil {
-								oldPrec = u
-							}
-							if fa.Field == m.F.Mode && oldMode == nil {
-								oldMode = u
-							}
-						}
+					}
+					if all {
+						return u
 					}
 				}
 			}
+			return nil
 		}
-		_ = firstDecoded
+		oldPrec := saved(m.F.Prec, precStores)
 		why := ""
 		var rb *ssa.BasicBlock
-		if oldPrec == nil || oldMode == nil {
-			why = "the receiver's precision and mode are not saved before the decoded attributes are stored"
+		redge := -1
+		if oldPrec == nil {
+			why = "the receiver's precision is not read before the decoded precision is stored"
 		} else {
 			for _, b := range fn.Blocks {
 				if !live[b.Index] || len(b.Instrs) == 0 {
@@ -472,32 +484,53 @@ func runGob(m *model.Model, s *ob.Set) {
 				} else if bo.Op != token.NEQ {
 					continue
 				}
-				tb := b.Succs[edge]
-				okMode, okPrec := false, false
-				for _, in := range tb.Instrs {
-					if st, ok := in.(*ssa.Store); ok {
-						if fa, ok := m.DecField(st.Addr); ok && fa.Field == m.F.Mode && st.Val == ssa.Value(oldMode) {
-							okMode = true
+				// SetPrec(oldPrec) behind the non-zero edge
+				for _, tb := range fn.Blocks {
+					if tb != b.Succs[edge] && !m.EdgeDominates(b, edge, tb) {
+						continue
+					}
+					for _, in := range tb.Instrs {
+						if cal, c := model.Callee(in); cal != nil && m.FuncName(cal) == "(*Decimal).SetPrec" && stripConv(c.Args[1]) == ssa.Value(oldPrec) {
+							rb, redge = b, edge
 						}
 					}
-					if cal, c := model.Callee(in); cal != nil && m.FuncName(cal) == "(*Decimal).SetPrec" && stripConv(c.Args[1]) == ssa.Value(oldPrec) {
-						okPrec = true
-					}
-				}
-				if okMode && okPrec {
-					rb = b
 				}
 			}
 			if rb == nil {
-				why = "no `if oldPrec != 0 { z.mode = oldMode; z.SetPrec(oldPrec) }` block found"
+				why = "no `if oldPrec != 0 { … z.SetPrec(oldPrec) }` found: a receiver that had a precision keeps the decoded one"
 			} else {
-				// every success return reachable from a decoded attribute store passes the restoring test
-				for _, d := range decoded {
-					if d.field != m.F.Mode && d.field != m.F.Prec {
-						continue
+				for _, st := range precStores {
+					if reachesReturnAvoiding(st.Block(), rb) {
+						why = "a return is reachable from " + m.InstrPos(st) + " without passing the restoring test"
 					}
-					if reachesReturnAvoiding(d.st.Block(), rb) {
-						why = "a return is reachable from " + m.InstrPos(d.st) + " without passing the restoring test"
+				}
+				// the mode: written only when the receiver had no precision, or saved and put back
+				// behind the non-zero edge
+				onlyWhenZero := true
+				for _, st := range modeStores {
+					if !(st.Block() == rb.Succs[1-redge] || m.EdgeDominates(rb, 1-redge, st.Block())) {
+						onlyWhenZero = false
+					}
+				}
+				if !onlyWhenZero {
+					oldMode := saved(m.F.Mode, modeStores)
+					back := false
+					if oldMode != nil {
+						for _, tb := range fn.Blocks {
+							if tb != rb.Succs[redge] && !m.EdgeDominates(rb, redge, tb) {
+								continue
+							}
+							for _, in := range tb.Instrs {
+								if st, ok := in.(*ssa.Store); ok {
+									if fa, ok := m.DecField(st.Addr); ok && fa.Field == m.F.Mode && st.Val == ssa.Value(oldMode) {
+										back = true
+									}
+								}
+							}
+						}
+					}
+					if !back && why == "" {
+						why = "the decoded rounding mode is stored also for a receiver that had a precision, and the receiver's own mode is not put back behind the `oldPrec != 0` test"
 					}
 				}
 			}
@@ -668,6 +701,38 @@ func gobLayout(m *model.Model, s *ob.Set, dec *ssa.Function, decoded []dstore) {
 					}
 				}
 				if x.Op == token.OR {
+					// … | neg with `var neg byte; if x.neg { neg = 1 }`: a φ of 0 and a power of two
+					// selected by the sign
+					for _, opnd := range []ssa.Value{x.X, x.Y} {
+						ph, ok := stripConv(opnd).(*ssa.Phi)
+						if !ok || len(ph.Edges) != 2 {
+							continue
+						}
+						k0, ok0 := model.ConstInt(ph.Edges[0])
+						k1, ok1 := model.ConstInt(ph.Edges[1])
+						if !ok0 || !ok1 || (k0 != 0) == (k1 != 0) {
+							continue
+						}
+						k := k0 + k1
+						if k&(k-1) != 0 {
+							continue
+						}
+						// the branch that selects: an If on the sign in a dominating predecessor
+						for _, pb := range fn2Blocks(ph) {
+							if len(pb.Instrs) == 0 {
+								continue
+							}
+							if ifi, ok := pb.Instrs[len(pb.Instrs)-1].(*ssa.If); ok {
+								if f, ok := fieldOfLoad(ifi.Cond); ok && f == m.F.Neg {
+									shift := int64(0)
+									for kk := k; kk > 1; kk >>= 1 {
+										shift++
+									}
+									encH[f] = hdrLayout{shift, 1, 0, true}
+								}
+							}
+						}
+					}
 					// b |= 1 under `if x.neg`
 					if k, ok := model.ConstInt(x.Y); ok && len(b.Preds) == 1 {
 						pb := b.Preds[0]
@@ -757,6 +822,11 @@ func gobLayout(m *model.Model, s *ob.Set, dec *ssa.Function, decoded []dstore) {
 					continue
 				}
 			}
+		}
+		// a word field assembled by hand: uint32(buf[k])<<24 | uint32(buf[k+1])<<16 | … (big-endian)
+		if off, ok := bigEndianBytes(v); ok {
+			decOff[d.field] = off
+			continue
 		}
 		// word fields: Uint32(buf[k:]) / setBytes(buf[k:])
 		if call, ok := v.(*ssa.Call); ok {
@@ -966,4 +1036,78 @@ func gobMantChecks(m *model.Model, fn *ssa.Function, mv ssa.Value, decPrec ssa.V
 		return 0, false
 	})
 	return
+}
+
+// fn2Blocks: the blocks that may decide a two-way φ: its block's predecessors and theirs.
+func fn2Blocks(ph *ssa.Phi) []*ssa.BasicBlock {
+	var out []*ssa.BasicBlock
+	for _, p := range ph.Block().Preds {
+		out = append(out, p)
+		out = append(out, p.Preds...)
+	}
+	return out
+}
+
+// bigEndianBytes: v is an OR of byte loads buf[k+i] shifted left by 8·(n−1−i), i = 0..n−1 (n = 2, 4
+// or 8): the big-endian reading of n bytes at offset k.
+func bigEndianBytes(v ssa.Value) (int64, bool) {
+	type term struct{ idx, shift int64 }
+	var terms []term
+	okAll := true
+	var walk func(v ssa.Value)
+	walk = func(v ssa.Value) {
+		v = stripConv(v)
+		bo, ok := v.(*ssa.BinOp)
+		if ok && bo.Op == token.OR {
+			walk(bo.X)
+			walk(bo.Y)
+			return
+		}
+		shift := int64(0)
+		if ok && bo.Op == token.SHL {
+			k, isK := model.ConstInt(bo.Y)
+			if !isK {
+				okAll = false
+				return
+			}
+			shift = k
+			v = stripConv(bo.X)
+		}
+		ld, ok := v.(*ssa.UnOp)
+		if !ok || ld.Op != token.MUL {
+			okAll = false
+			return
+		}
+		ia, ok := ld.X.(*ssa.IndexAddr)
+		if !ok || !isByteSlice(ia.X.Type()) {
+			okAll = false
+			return
+		}
+		idx, ok := model.ConstInt(ia.Index)
+		if !ok {
+			okAll = false
+			return
+		}
+		terms = append(terms, term{idx, shift})
+	}
+	walk(v)
+	n := int64(len(terms))
+	if !okAll || (n != 2 && n != 4 && n != 8) {
+		return 0, false
+	}
+	min := terms[0].idx
+	for _, t := range terms {
+		if t.idx < min {
+			min = t.idx
+		}
+	}
+	seen := map[int64]bool{}
+	for _, t := range terms {
+		i := t.idx - min
+		if i < 0 || i >= n || seen[i] || t.shift != 8*(n-1-i) {
+			return 0, false
+		}
+		seen[i] = true
+	}
+	return min, true
 }
